@@ -21,6 +21,21 @@ def gen(rng, tier):
             else:
                 act = dict(op='order_shares', id=oid, amt=rng.choice([100, 10 ** 6, 10 ** 7, -100]), style=rng.choice(['mkt', 'mkt', ['lim', 1.0]]))
             subs.append(dict(ev=rng.choice(['TRADE', 'TRADE', 'ORDER_CREATION_PASS', 'ORDER_UNSOLICITED_UPDATE']), acts=[act], every=rng.choice([1, 2]), max=rng.choice([1, 2, 4])))
+        if rng.random() < 0.6:
+            # an order that rests until the close (a limit far from the market) and a handler of the close's rejection announcement that tries
+            # to place an order: the broker raises that event from its own after_trading sweep
+            rest = rng.choice(ids)
+            days_ = sorted(set(int(k.split('|')[0]) for k in scn['script'] if int(k.split('|')[0]) >= 0)) or [scn['start_i']]
+            for d in rng.sample(days_, min(len(days_), rng.randint(1, 3))):
+                slot = [k for k in scn['script'] if k.startswith('%d|handle_bar|' % d)]
+                key = slot[0] if slot else '%d|handle_bar|0' % d
+                if rest in scn['meta']['futs']:
+                    scn['script'].setdefault(key, []).append(dict(op='buy_open', id=rest, amt=1, style=['lim', 0.93]))
+                else:
+                    scn['script'].setdefault(key, []).append(dict(op='order_shares', id=rest, amt=100, style=['lim', 0.93]))
+            other = rng.choice(ids)
+            act = dict(op='buy_open', id=other, amt=1, style='mkt') if other in scn['meta']['futs'] else dict(op='order_shares', id=other, amt=100, style='mkt')
+            subs.append(dict(ev='ORDER_UNSOLICITED_UPDATE', acts=[act], every=1, max=rng.choice([2, 5])))
         scn['subs'] = subs
         scn['cfg']['mod']['sys_risk']['validate_cash'] = False
     return scn
